@@ -1,4 +1,7 @@
 import Mochi.Model.Broker
+import Mochi.Lemmas.BrokerRetained
+import Mochi.Lemmas.BrokerRetInfl
+import Mochi.Lemmas.BrokerReplay
 /-!
 # C25 — Expired messages are not delivered and expiry intervals only shrink
 
@@ -51,4 +54,164 @@ theorem C25_retained_kept (s : Server) (now : Int) (topic : Topics.Str) (m : Msg
 example : minimumNZ 86400 0 = 86400 ∧ minimumNZ 86400 10 = 10 ∧ minimumNZ 0 10 = 10 ∧ minimumNZ 0 0 = 0 ∧ minimumNZ 5 10 = 5 := by
   decide
 
+
+/-! ## After housekeeping: the retained store (over histories)
+
+`retDue caps now m` (`Mochi/Lemmas/BrokerRetained.lean`) is the test of `tickRetained` (server.go `clearExpiredRetainedMessages`):
+the message comes from an MQTT 5 publisher and its expiry time lies strictly before `now`, or it is older than the server
+maximum.  `NW`, `Op.avoids`, `Op.willAvoids`: see `Mochi/Props/C05.lean`. -/
+
+/-- a message stamped by `processPublish` whose expiry time lies strictly before `now` is due: for an MQTT 5 publisher by
+    its own expiry time, for every publisher when the expiry time is `created + server maximum` -/
+theorem C25_due_of_expired (caps : Caps) (now : Int) (m : Msg)
+    (h : (m.ver = 5 ∧ 0 < m.expiry ∧ m.expiry < now) ∨
+         (0 < caps.maxMessageExpiry ∧ m.expiry = m.created + caps.maxMessageExpiry ∧ m.expiry < now)) :
+    retDue caps now m = true := by
+  unfold retDue
+  rcases h with ⟨hv, he, hlt⟩ | ⟨hm, he, hlt⟩
+  · simp [hv, he, hlt]
+  · have h1 : caps.maxMessageExpiry > 0 := hm
+    have h2 : now - m.created > (caps.maxMessageExpiry : Int) := by omega
+    simp [h1, h2]
+
+/-- **the retained store after housekeeping**: a retained message with effective expiry time `e = m.expiry > 0` (MQTT 5
+    publisher) is gone from the store after `tick "retained" t` with `t > e` -/
+theorem C25_retained_gone_after_housekeeping (s : Server) (t : Int) (topic : Topics.Str) (m : Msg)
+    (hm : Topics.assocGet s.rmsgs topic = some m) (hv : m.ver = 5) (he : 0 < m.expiry) (hlt : m.expiry < t) :
+    Topics.assocGet (step s (.tick "retained" t)).1.rmsgs topic = none := by
+  rw [step_tick_retained]
+  exact tickRetained_gone s t topic m hm (C25_due_of_expired _ _ _ (Or.inl ⟨hv, he, hlt⟩))
+
+/-- the same for any due message (e.g. one from an MQTT 3 publisher, stamped with the server maximum) -/
+theorem C25_retained_due_gone_after_housekeeping (s : Server) (t : Int) (topic : Topics.Str) (m : Msg)
+    (hm : Topics.assocGet s.rmsgs topic = some m) (hd : retDue s.caps t m = true) :
+    Topics.assocGet (step s (.tick "retained" t)).1.rmsgs topic = none := by
+  rw [step_tick_retained]
+  exact tickRetained_gone s t topic m hm hd
+
+/-- … and housekeeping keeps what is not due (no entry under the topic is due) -/
+theorem C25_retained_kept_after_housekeeping (s : Server) (t : Int) (topic : Topics.Str)
+    (hk : ∀ e ∈ s.rmsgs, e.1 = topic → retDue s.caps t e.2 = false) :
+    Topics.assocGet (step s (.tick "retained" t)).1.rmsgs topic = Topics.assocGet s.rmsgs topic := by
+  rw [step_tick_retained]
+  exact tickRetained_kept s t topic hk
+
+/-- **it stays gone**: after the housekeeping at `t > e`, no later op other than a new retained publish on that topic
+    (client, inline, or a will with the retain flag) brings anything back under the topic — over any further history
+    `post` (sequential or not) that avoids the topic; a later `tick "retained"` is allowed too -/
+theorem C25_expired_retained_stays_gone (s : Server) (t : Int) (topic : Topics.Str) (m : Msg) (post : List Op)
+    (hm : Topics.assocGet s.rmsgs topic = some m) (hv : m.ver = 5) (he : 0 < m.expiry) (hlt : m.expiry < t)
+    (hnw : NW (fun u => u = topic) s)
+    (hpost : ∀ op ∈ post, op.avoids (fun u => u = topic) (fun u => u = topic) ∨ ∃ t', op = .tick "retained" t') :
+    Topics.assocGet (run s (.tick "retained" t :: post)).rmsgs topic = none := by
+  rw [run_cons_rk]
+  have h0 := C25_retained_gone_after_housekeeping s t topic m hm hv he hlt
+  have hnw0 : NW (fun u => u = topic) (step s (.tick "retained" t)).1 := NW_step s _ hnw trivial
+  generalize (step s (.tick "retained" t)).1 = s1 at h0 hnw0
+  clear hm hnw
+  induction post generalizing s1 with
+  | nil => exact h0
+  | cons op ops ih =>
+    rw [run_cons_rk]
+    rcases hpost op List.mem_cons_self with hav | ⟨t', rfl⟩
+    · have h1 := step_rk (T := fun u => u = topic) (U := fun u => u = topic) (fun _ h => h) s1 op hnw0 hav
+      exact ih (fun o ho => hpost o (List.mem_cons_of_mem _ ho)) _ ((h1.2 topic rfl).trans h0) h1.1
+    · refine ih (fun o ho => hpost o (List.mem_cons_of_mem _ ho)) _ ?_ (NW_step s1 _ hnw0 trivial)
+      rcases tickRetained_mono s1 t' topic with h | h
+      · rw [step_tick_retained]; exact h
+      · rw [step_tick_retained, h]; exact h0
+
+/-! ## After housekeeping: a session's stored copies (`Mochi/Lemmas/BrokerRetInfl.lean`)
+
+`dueAt caps now m` is the test of `tickInflight`.  After `tick "inflight" now` no REGISTERED session (connected or offline)
+holds a record that was due; `admitC` — `ResendInflightMessages` of a resumed session — writes only records the session
+holds.  Known finding F25a: a copy deferred by flow control is stored with `expiry = -1`, is therefore never due by its own
+expiry time, survives the housekeeping and is released later (`C25_deferred_exempt_counterexample`). -/
+
+/-- **a session's stored copy after housekeeping**: a record of a registered session (connected or offline) with expiry
+    time `e > 0` (MQTT 5 publisher) is gone from the session after `tick "inflight" t` with `t > e` -/
+theorem C25_inflight_gone_after_housekeeping (s : Server) (t : Int) (cid : Topics.Str) (i : Nat) (m : Msg)
+    (hm : m ∈ (getObj s i).inflight) (hreg : (cid, i) ∈ s.clients) (hv : m.ver = 5) (he : 0 < m.expiry)
+    (hlt : m.expiry < t) : m ∉ (getObj (step s (.tick "inflight" t)).1 i).inflight := by
+  rw [step_tick_inflight_hk]
+  exact C25_inflight_gone s t cid i m hm hreg hv he hlt
+
+/-- … and no later resumption resends it: every PUBLISH that `ResendInflightMessages` writes for a registered session
+    after the housekeeping is (the `dup` copy of) a record of that session that was NOT due -/
+theorem C25_inflight_not_resent_after_housekeeping (s : Server) (t : Int) (cid : Topics.Str) (i : Nat)
+    (hreg : (cid, i) ∈ s.clients) (k : Connect) (present : Bool) :
+    ∀ o ∈ (admitC (step s (.tick "inflight" t)).1 i k present).2,
+      (∃ conn ver m' me, o = Out.wrote conn (.publish ver m' me)) →
+      ∃ m ∈ (getObj s i).inflight, dueAt s.caps t m = false ∧ m.type = 3 ∧
+        ∃ conn ver me, o = Out.wrote conn (.publish ver { m with dup := true } me) := by
+  rw [step_tick_inflight_hk]
+  exact C25_no_resend_due_hk s t cid i hreg k present
+
+/-- **F25a, kept**: a copy deferred by flow control (`expiry = -1`) survives the housekeeping at a time later than its
+    message's expiry time and is released — written to the subscriber — afterwards (closed history, by `decide`) -/
+theorem C25_deferred_exempt_counterexample :
+    -- after `tick "inflight" (NOW + 100)` the subscriber still holds the deferred copy of a message with Message Expiry
+    -- Interval 10 (expired from `NOW + 10` on) …
+    (getObj (run (init {}) (deferredHistory_hk 1000)) 1).inflight.map (fun m => (m.id, m.payload, m.expiry))
+      = [(1, [1], NOW + 1000), (2, [2], -1)] ∧
+    -- … and the subscriber's next PUBACK releases it: payload 2 is written to the subscriber's connection
+    (step (run (init {}) (deferredHistory_hk 1000)) (.recv 1 (.puback 1 0))).2.any (isPublishTo_hk 1 [2]) = true :=
+  ⟨C25_deferred_exempt_counterexample_hk.2.2.1, C25_deferred_exempt_counterexample_hk.2.2.2.1⟩
+
+/-- **the effective interval** stamped on an accepted publish: `NOW + minimumNZ serverMax pubInterval`, the interval being
+    the smaller non-zero of the two (`C25_eff_expiry`) and at most each non-zero bound (`C25_interval_shrinks`) -/
+theorem C25_effective_interval (s : Server) (i qos : Nat) (dup retain : Bool) (id : Nat) (topic payload : Topics.Str)
+    (me : Nat) (h : 0 < minimumNZ s.caps.maxMessageExpiry me) :
+    (inboundMsg s i qos dup retain id topic payload me).expiry = NOW + minimumNZ s.caps.maxMessageExpiry me ∧
+    (s.caps.maxMessageExpiry ≠ 0 → minimumNZ s.caps.maxMessageExpiry me ≤ s.caps.maxMessageExpiry) ∧
+    (me ≠ 0 → minimumNZ s.caps.maxMessageExpiry me ≤ me) := by
+  refine ⟨?_, (C25_interval_shrinks _ _).1, (C25_interval_shrinks _ _).2⟩
+  show (if minimumNZ s.caps.maxMessageExpiry me > 0 then _ else _) = _
+  rw [if_pos h]
+
+
+/-- **an expired retained message is never replayed**: in the history `pre ++ [tick "retained" t] ++ post` where the
+    message stored at `topic` before the tick had expiry time `< t`, `post` contains no new retained publish on `topic`
+    (client, inline; no CONNECT of the history carries a retained will on it), the replay of ANY later subscription
+    (`publishRetainedToClient` in the final state; restrictions as in `C05_subscribe_replays_exactly`) writes no PUBLISH
+    with that topic -/
+theorem C25_expired_retained_never_replayed_seq (caps : Caps) (pre post : List Op) (t : Int) (topic : Topics.Str) (m : Msg)
+    (hpre : ∀ op ∈ pre, op.willAvoids (fun u => u = topic))
+    (hm : Topics.assocGet (run (init caps) pre).rmsgs topic = some m) (hv : m.ver = 5) (he : 0 < m.expiry)
+    (hlt : m.expiry < t)
+    (hpost : ∀ op ∈ post, op.avoids (fun u => u = topic) (fun u => u = topic) ∨ ∃ t', op = .tick "retained" t')
+    (i : Nat) (sub : Topics.Sub) (ex : Bool) (k : Nat)
+    (hc : ReplayClient (run (init caps) (pre ++ .tick "retained" t :: post)) i) (hq : sub.qos = 0)
+    (hsp : StoredPub (run (init caps) (pre ++ .tick "retained" t :: post)))
+    (hns : Topics.isSharedFilter sub.filter = false) (hrh : ((sub.rh == 1 && ex) || sub.rh == 2) = false)
+    (hne : Topics.assocGet (run (init caps) (pre ++ .tick "retained" t :: post)).rmsgs [] = none)
+    (hf : sub.filter ≠ []) (hok : Topics.specLevelsOK (Topics.splitLevels sub.filter) = true) :
+    ∀ o ∈ (publishRetainedToClient (run (init caps) (pre ++ .tick "retained" t :: post)) i sub ex k).2,
+      ∀ conn ver msg me, o = Out.wrote conn (.publish ver msg me) → msg.topic ≠ topic := by
+  have hgone : Topics.assocGet (run (init caps) (pre ++ .tick "retained" t :: post)).rmsgs topic = none := by
+    rw [run_append_rk]
+    exact C25_expired_retained_stays_gone _ t topic m post hm hv he hlt (NW_run _ pre (NW_init _ caps) hpre) hpost
+  intro o ho conn ver msg me hoe
+  obtain ⟨t', pk, hg, _, _, hpk⟩ := (replay_mem_iff _ i sub ex k hc hq hsp hns hrh (RetIdxOK_run caps _)
+    (RetKeys_run caps _) hne hf hok o).mp ho
+  have htop : pk.topic = t' := (hsp _ (assocGet_some_mem _ _ _ hg)).2.2
+  rw [hoe] at hpk
+  have hmsg : msg.topic = t' := by
+    unfold replayPacket at hpk
+    injection hpk with _ h2
+    injection h2 with _ h3 _
+    rw [h3]; exact htop
+  intro h
+  rw [hmsg] at h
+  rw [h, hgone] at hg
+  cases hg
+
 end Mochi.Broker
+
+#print axioms Mochi.Broker.C25_retained_gone_after_housekeeping
+#print axioms Mochi.Broker.C25_expired_retained_stays_gone
+#print axioms Mochi.Broker.C25_expired_retained_never_replayed_seq
+#print axioms Mochi.Broker.C25_inflight_gone_after_housekeeping
+#print axioms Mochi.Broker.C25_inflight_not_resent_after_housekeeping
+#print axioms Mochi.Broker.C25_deferred_exempt_counterexample
+#print axioms Mochi.Broker.C25_effective_interval
